@@ -106,6 +106,121 @@ def compare(ctx, ops, impl, model):
     return bad
 
 
+# ---------------------------------------------------------------------------------------------
+# the broker's topic -> filters cache (DataLog::matches / next_native_offset, router/logs.rs):
+# whatever the order in which filters are created and topics are first published, a publish must
+# be appended to the log of exactly the filters that match its topic by the rule.  Observed on the
+# real Router through the stepping driver (SNAP shows every log's end), compared with the rule
+# as computed by the extracted Coq model of `matches`.
+CACHE_FILTERS = ["a/b", "a/b/#", "a/+", "+/+", "a/#", "+", "a", "+/b/#", "a/b/c", "#"]
+CACHE_TOPICS = ["a/b", "a", "a/b/c", "a/c", "b"]
+
+
+def cache_histories(thorough):
+    import itertools
+    fs = CACHE_FILTERS if thorough else CACHE_FILTERS[:7]
+    ts = CACHE_TOPICS if thorough else CACHE_TOPICS[:4]
+    out = []
+    for (f1, f2) in itertools.product(fs, fs):
+        for (t1, t2) in itertools.product(ts, ts):
+            if t2 < t1:
+                continue
+            for order in ("SSPP", "SPSP", "SPPS", "PSSP", "PSPS", "PPSS"):
+                q = {"S": [f1, f2], "P": [t1, t2]}
+                seq = [(c, q[c].pop(0)) for c in order]
+                out.append(seq)
+    return out
+
+
+def cache_part(ctx, mexe_topic, explicit=None):
+    """returns (n_histories, n_publishes, violations[(text, replay)])"""
+    import re
+    rexe, rout = lib.cargo_driver("router")
+    if not rexe:
+        return 0, 0, [("correspondence-only: router driver does not build: %s" % (rout or "")[-400:], rout or "")]
+    final_ops = [("P", t) for t in CACHE_TOPICS] if explicit is None else []
+    hs = cache_histories(ctx.thorough()) if explicit is None else explicit
+    # the rule, from the Coq model: matches(topic, filter) for every pair that can occur
+    pairs = sorted({(t, f) for t in CACHE_TOPICS for f in CACHE_FILTERS + ["z"]} |
+                   {(t, f) for h in hs for (c, t) in h if c == "P" for (c2, f) in h + [("S", "#")] if c2 == "S"})
+    txt = "\n".join("M %s %s" % (hx(t), hx(f)) for (t, f) in pairs) + "\n"
+    _, ans, _ = lib.run_on_text(mexe_topic, txt)
+    rule = {pr: a.strip() == "T" for pr, a in zip(pairs, ans)}
+    lines, marks = [], []
+    for hi, seq in enumerate(hs):
+        # the publisher is closed by a publish that matches no filter: keep one catch-all log 'z'-less
+        # filter set alive by creating "#" first?  no: that would mask nothing but changes indices; use
+        # an initial filter that matches every test topic only through its own rule: "#"
+        lines += ["SEED %d" % hi, "NEW 10 200 4096 2 rr 1 23", "CONNECT 73 1 0 0 -", "CONNECT 70 1 0 0 -", "CONSUME", "CONSUME"]
+        pk = 0
+        for (c, x) in seq + final_ops:
+            if c == "S":
+                pk += 1
+                lines += ["PUSH 0 SUB %d - %s:0" % (pk, hx(x)), "DATA 0"]
+            else:
+                lines += ["PUSH 1 PUB %s 6d 0 0 0 0 -" % hx(x), "DATA 1", "SNAP"]
+                marks.append((hi, len(lines) - 1, x))
+    rc, out, err = lib.run_on_text(rexe, "\n".join(lines) + "\n")
+    out = [l for l in out if not l.startswith("ORACLE")]
+    if len(out) != len(lines):
+        return len(hs), 0, [("correspondence-only: router driver answered %d of %d lines" % (len(out), len(lines)), err[-600:])]
+    viol = []
+    state = {}
+    npub = 0
+    for (hi, li, topic) in marks:
+        seq = hs[hi]
+        ends = [int(m.group(2)) for m in re.finditer(r"L(\d+):\d+\.(\d+)\[", out[li])]
+        # filters in creation order: '#' (initial), then each new filter of the history
+        prev = state.get(hi)
+        if prev is None:
+            prev = {"filters": ["#"], "ends": [0], "ops": []}
+            state[hi] = prev
+        # which SUBs were processed before this publish?  rebuild from the op list
+        done = prev["ops"]
+        # advance through the sequence until this publish
+        allops = hs[hi] + final_ops
+        while True:
+            c, x = allops[len(done)]
+            done.append((c, x))
+            if c == "S":
+                if x not in prev["filters"]:
+                    prev["filters"].append(x)
+                    prev["ends"].append(0)
+            else:
+                break
+        npub += 1
+        if len(ends) != len(prev["filters"]):
+            viol.append(("broker has %d logs, %d filters were created (%s)" % (len(ends), len(prev["filters"]), prev["filters"]), hi))
+            continue
+        for k, f in enumerate(prev["filters"]):
+            grew = ends[k] - prev["ends"][k]
+            want = 1 if rule[(topic, f)] else 0
+            if grew != want:
+                viol.append(("publish on %r %s the log of filter %r (rule: matches = %s) after %s" % (
+                    topic, "was not appended to" if want else "was appended to", f, rule[(topic, f)],
+                    " ".join("%s:%s" % (c, x) for (c, x) in done[:-1]) or "nothing"), hi))
+        prev["ends"] = ends
+    res = []
+    seen = set()
+    for (text, hi) in viol:
+        if hi in seen:
+            continue
+        seen.add(hi)
+        seq = hs[hi]
+        rep = ["# C12 replay (broker topic->filters cache): router driver script; ./check C12 --replay <this file>", "# " + text,
+               "SEED %d" % hi, "NEW 10 200 4096 2 rr 1 23", "CONNECT 73 1 0 0 -", "CONNECT 70 1 0 0 -", "CONSUME", "CONSUME"]
+        pk = 0
+        for (c, x) in seq + final_ops:
+            if c == "S":
+                pk += 1
+                rep += ["PUSH 0 SUB %d - %s:0" % (pk, hx(x)), "DATA 0"]
+            else:
+                rep += ["PUSH 1 PUB %s 6d 0 0 0 0 -" % hx(x), "DATA 1", "SNAP"]
+        res.append((text, "\n".join(rep) + "\n"))
+    res.sort(key=lambda r: len(r[1]))
+    return len(hs), npub, res
+
+
 def run(ctx):
     p_ok = ctx.proof_side(["Extract/TopicX.vo"])
     ctx.assumptions += [
@@ -143,6 +258,17 @@ def run(ctx):
     ctx.cov["result_histogram"] = hist
     ctx.cov["samples"] = [describe(ops[i]) + " -> impl " + impl[i] + " / model " + model[i] for i in (0, 700, exhaustive_n - 1, exhaustive_n + 1, len(ops) - 1)]
     os.remove(opsf)
+    nh, npub, cviol = cache_part(ctx, mexe)
+    ctx.cov["cache_histories"] = nh
+    ctx.cov["cache_publishes_checked"] = npub
+    ctx.cov["cache_rule"] = ("broker topic->filters cache (DataLog::matches / next_native_offset): every ordered choice of two filters and two topics from a pool, in all six "
+                             "interleavings of creating the filters and first publishing the topics, followed by one publish per pool topic; after every publish each log must have "
+                             "grown by exactly one entry iff its filter matches the topic by the rule (extracted Coq matches); observed on the real Router through the stepping driver")
+    ctx.log("cache: histories=%d publishes=%d violations=%d" % (nh, npub, len(cviol)))
+    if cviol:
+        text, rep = cviol[0]
+        found = not text.startswith("correspondence-only:")
+        ctx.violation("cache-input" if found else "cache-correspondence", rep, found, "broker cache: " + text + " (%d histories)" % len(cviol))
     if bad:
         # group by op; shortest input first = minimal replay
         bad.sort(key=lambda b: (sum(len(x) for x in ops[b[0]][1:]), b[0]))
@@ -160,6 +286,23 @@ def run(ctx):
 
 
 def replay(ctx, path):
+    if "broker topic->filters cache" in open(path).read()[:300]:
+        mexe, _ = lib.ocaml_driver("topic", "TopicX")
+        seq = []
+        for l in open(path).read().splitlines():
+            t = l.split()
+            if l.startswith("PUSH 0 SUB"):
+                seq.append(("S", bytes.fromhex(t[5].split(":")[0]).decode()))
+            elif l.startswith("PUSH 1 PUB"):
+                seq.append(("P", bytes.fromhex(t[3]).decode()))
+        nh, npub, viol = cache_part(ctx, mexe, explicit=[seq])
+        for (text, _r) in viol:
+            print("CACHE", text)
+        if viol:
+            print("VIOLATION property=C12 replay=%s" % path)
+            return 1
+        print("cache replay: %d publishes, every log grew exactly as the rule says" % npub)
+        return 0
     iexe, iout = lib.cargo_driver("topic")
     mexe, mout = lib.ocaml_driver("topic", "TopicX")
     lines = [l for l in open(path).read().splitlines() if l.strip() and not l.startswith("#")]
